@@ -135,7 +135,11 @@ def run(chk, fb, tier):
     # the record write uses the joined row
     chk.ob(rb, "record-content", bool(joins), where=where(o[0]), detail="the record is the join of the row's fields")
     # C20.c options
-    lets = {y["pat"].get("lid"): hirq.strip(y["init"]) for y in hirq.walk(body) if y.get("k") == "let" and y.get("init") and y["pat"].get("k") == "bind"}
+    # the per-field work may sit in a private helper of the csv module: its body is part of the scope
+    helper_bodies = [fb.hir[c]["body"] for c in hirq.called_defs(i[3]) if c.startswith("writer::csv::") and c in fb.hir and c != d]
+    if helper_bodies:
+        i = (i[0], i[1], i[2], {"k": "block", "ln": i[3].get("ln"), "stmts": [{"k": "semi", "e": i[3]}] + [{"k": "semi", "e": hb} for hb in helper_bodies], "expr": None})
+    lets = {y["pat"].get("lid"): hirq.strip(y["init"]) for y in list(hirq.walk(body)) + [z for hb in helper_bodies for z in hirq.walk(hb)] if y.get("k") == "let" and y.get("init") and y["pat"].get("k") == "bind"}
 
     def from_getter(n, getter, depth=0):
         """n mentions a call of the option getter, directly or through immutable local bindings."""
